@@ -269,12 +269,15 @@ pub fn check_counts(sc: &Scenario, h: &History, infos: &[SysInfo], ro: &RunOut, 
     // top-level calls
     let mut prev: Vec<u64> = vec![0; infos.len()];
     let mut after_panic = false;
+    let armed = |ci: usize| sc.faults.iter().any(|f| f.call == ci && matches!(f.kind, FaultKind::PanicBefore | FaultKind::PanicMid | FaultKind::PanicAfter | FaultKind::Undeclared));
     for (ci, c) in ro.calls.iter().enumerate() {
-        if c.panic.is_some() {
+        if c.panic.is_some() && armed(ci) {
             prev = c.runs_after.clone();
             after_panic = true;
             continue;
         }
+        // (a call that panicked although nothing was injected into it is judged like any other:
+        // what it did not run, it did not run)
         // systems of a dispatcher registered as a thread-local system run once whenever the
         // thread-local phase runs
         for i in infos.iter().filter(|i| i.parent.map(|p| infos[p].container).unwrap_or(false)) {
@@ -312,8 +315,8 @@ pub fn check_counts(sc: &Scenario, h: &History, infos: &[SysInfo], ro: &RunOut, 
         if b.panicked || b.exit.is_none() && !bi_info.multi {
             continue;
         }
-        // was the call that contains this occurrence a panicking one?
-        if ro.calls.iter().any(|c| c.panic.is_some() && c.first_seq <= b.enter && b.enter < c.last_seq) {
+        // was the call that contains this occurrence one in which a panic was injected?
+        if ro.calls.iter().enumerate().any(|(ci, c)| c.panic.is_some() && armed(ci) && c.first_seq <= b.enter && b.enter < c.last_seq) {
             continue;
         }
         let _ = bi;
